@@ -76,6 +76,8 @@ def _sib_descs(case, excluded=None):
         base = case["bases"][sb["b"] % len(case["bases"])]
         names = rel[sb["b"] % len(case["bases"])]
         togs = [names[t % len(names)] for t in menu[sb["m"] % len(menu)]] if names else []
+        if case.get("npcycle") and i % 4 and "np_at%d" % (i % 4) in names:
+            togs.append("np_at%d" % (i % 4))  # siblings apply statement-level .params() on different nesting levels
         if case.get("bindsrc") and i % 4 and "bind_src%d" % (i % 4) in names:
             togs.append("bind_src%d" % (i % 4))  # siblings cycle through the four ways a named bind gets its value
         if case.get("typearg") and i % 2 == 1 and "type_arg" in names:
@@ -392,6 +394,17 @@ def check_history(case, ctx):
         classes.add("hits-warm:%s" % ("0" if not hit_warm else "1-3" if hit_warm <= 3 else "4+"))
         if one_apart:
             classes.add("one-toggle-apart")
+        # nested statement-level .params(): one bind name valued on several nesting levels
+        ats = {}
+        for b_, t, d, _ in sibs:
+            if d.get("np"):
+                classes.add("nested-params")
+                a_ = d["np"]["at"] % 8
+                ats.setdefault(b_, set()).add(a_)
+                if bin(a_).count("1") >= 2:
+                    classes.add("nested-params:several-levels-valued")
+        if any(len(v) >= 2 for v in ats.values()):
+            classes.add("nested-params:levels-toggled")
         # bind-source siblings: same base whose named bind gets its value in different ways (equal cache keys)
         for bi in range(len(case["bases"])):
             srcs = []
@@ -482,6 +495,7 @@ def _histories(draw):
         "nocache": draw(st.sampled_from([0, 0, 0, 0, 0, 0, 1])),
         "typearg": draw(st.sampled_from([0, 1, 1, 1])),
         "bindsrc": draw(st.sampled_from([0, 1, 1, 1])),
+        "npcycle": draw(st.sampled_from([0, 1, 1, 1])),
     }
 
 
